@@ -14,6 +14,21 @@ inductive Sub (U : Universe) : Ty → Ty → Prop
 /-- Python can only name existing classes as bases -/
 def Universe.WF (U : Universe) : Prop := ∀ k : Nat, ∀ b : Nat, b ∈ (U.cls k).bases → b < k ∧ k < U.classes.length
 
+/-- decidable form of `WF`, for concrete universes -/
+def Universe.wfb (U : Universe) : Bool :=
+  (List.range U.classes.length).all fun k => (U.cls k).bases.all fun b => decide (b < k)
+
+theorem Universe.wf_of_wfb (U : Universe) (h : U.wfb = true) : U.WF := by
+  intro k b hb
+  rcases Nat.lt_or_ge k U.classes.length with hk | hk
+  · refine ⟨?_, hk⟩
+    simp only [Universe.wfb, List.all_eq_true, List.mem_range, decide_eq_true_eq] at h
+    exact h k hk b hb
+  · have : U.cls k = { bases := [] } := by
+      simp only [Universe.cls]
+      rw [List.getElem?_eq_none hk]; rfl
+    rw [this] at hb; simp at hb
+
 theorem Sub.trans {U : Universe} {a b c : Ty} (h1 : Sub U a b) (h2 : Sub U b c) : Sub U a c := by
   induction h1 with
   | refl => exact h2
